@@ -27,9 +27,10 @@ def fit_observed(name, kw, data):
   est = getattr(metric_learn, name)(**kw)
   try:
     sm.graphical_lasso, sm._initialize_metric_mahalanobis = spy_g, spy_i
-    with warnings.catch_warnings():
-      warnings.simplefilter('ignore')
+    with warnings.catch_warnings(record=True) as wrn:
+      warnings.simplefilter('always')
       est.fit(*fits.fit_args(name, data))
+    cap['not_converged'] = any('did not converge' in str(x.message) for x in wrn)
   finally:
     sm.graphical_lasso, sm._initialize_metric_mahalanobis = og, oi
   return est, cap
@@ -55,15 +56,27 @@ def run(ctx):
   ok = ctx.build_property()
   terms, recs = [], []
   n = 60 if thorough else 14
-  for i in range(n):
-    name = ['SDML', 'SDML_Supervised'][i % 3 == 2]
-    data = fits.make_data(rng, d=int(rng.integers(2, 6)))
-    d = data['d']
-    prior = ['identity', 'covariance', 'random', 'array'][i % 4]
-    kw = fits.base_kwargs(name, data)
-    kw.update(prior=prior if prior != 'array' else fits.spd_array(rng, d), sparsity_param=float(rng.choice([0.01, 0.1, 0.5])),
-              random_state=int(rng.integers(0, 100)))
-    kw = fits.sdml_fix_balance(name, kw, data)
+  import json as _json, os as _os
+  corpus = _json.load(open(_os.path.join('/verif', 'corpus', 'C13_nonconverged.json')))
+  for i in range(-1, n):
+    if i == -1:
+      # corpus case (listed finding): positive definite solver input on which scikit-learn's solver does not converge
+      name = corpus['estimator']
+      Xc, yc = np.array(corpus['X']), np.array(corpus['y'])
+      data = dict(X=Xc, y=yc, d=Xc.shape[1], n=len(Xc), n_classes=len(np.unique(yc)), pairs_idx=np.zeros((1, 2), dtype=int),
+                  ypairs=np.array([1]))
+      d = data['d']
+      prior = 'random'
+      kw = dict(corpus['params'])
+    else:
+      name = ['SDML', 'SDML_Supervised'][i % 3 == 2]
+      data = fits.make_data(rng, d=int(rng.integers(2, 6)))
+      d = data['d']
+      prior = ['identity', 'covariance', 'random', 'array'][i % 4]
+      kw = fits.base_kwargs(name, data)
+      kw.update(prior=prior if prior != 'array' else fits.spd_array(rng, d), sparsity_param=float(rng.choice([0.01, 0.1, 0.5])),
+                random_state=int(rng.integers(0, 100)))
+      kw = fits.sdml_fix_balance(name, kw, data)
     opt = {k: (v if not isinstance(v, np.ndarray) else 'ndarray') for k, v in kw.items()}
     inp = dict(estimator=name, params=opt, X=data['X'].tolist(), y=data['y'].tolist(), pairs_idx=data['pairs_idx'].tolist(),
                ypairs=data['ypairs'].tolist())
@@ -96,7 +109,8 @@ def run(ctx):
       ctx.fail_input('solver_call', 'the learned matrix is not the solver output', inp)
     terms.append("(c13_case %d%%nat %s %s %s %s %s %s %s)" % (d, gmat(cap['prior_inv'], qdy), qdy(kw['balance_param']), qdy(alpha),
                                                           gvec(yp, qdy), gmat(diffs, qdy), gmat(S, qdy), gmat(M, qdy)))
-    recs.append(dict(inp=inp, S=S, M=M, alpha=alpha, prior_inv=cap['prior_inv'], diffs=diffs, yp=yp, bal=kw['balance_param']))
+    recs.append(dict(inp=inp, S=S, M=M, alpha=alpha, prior_inv=cap['prior_inv'], diffs=diffs, yp=yp, bal=kw['balance_param'],
+                     not_converged=cap.get('not_converged', False)))
     # (d) necessary condition: no decrease along +-eps coordinate directions
     f0 = objective(S, M, alpha)
     worst = 0.0
@@ -108,7 +122,10 @@ def run(ctx):
           if np.linalg.eigvalsh(M + E).min() > 0:
             worst = min(worst, objective(S, M + E, alpha) - f0)
     ctx.count('no_descent_direction', 1)
-    if worst < -1e-6:
+    if cap.get('not_converged'):
+      worst = 0.0      # reported through the KKT certificate with its own site
+    # the solver stops at a dual gap of 1e-4: a first-order decrease of (KKT residual tolerance) x (step) is within its accuracy
+    if worst < -(2 * 5e-3 * float(np.abs(S).max()) * 1e-4 + 1e-9):
       ctx.fail_input('no_descent_direction', 'the documented objective decreases along a coordinate direction at the returned M', inp,
                      observed=worst)
     ctx.seen((name, repr(sorted(opt.items())), i), bool(np.any(np.abs(M - np.diag(np.diag(M))) > 0)))
@@ -125,6 +142,9 @@ def run(ctx):
                          rec['inp'], observed=S.tolist(), expected=Sdoc.tolist())
         elif np.linalg.eigvalsh((M + M.T) / 2).min() <= 0:
           ctx.fail_input('result_spd', 'returned M is not symmetric positive definite', rec['inp'], observed=M.tolist())
+        elif rec['not_converged']:
+          ctx.fail_input('kkt', 'the graphical-lasso solver did not converge (ConvergenceWarning) and fit returns its last iterate, which is not a minimiser',
+                         rec['inp'], observed=M.tolist())
         else:
           ctx.fail_input('kkt', 'returned M violates the optimality conditions of the documented objective', rec['inp'],
                          observed=M.tolist())
